@@ -68,6 +68,9 @@ class Transport(httpx.AsyncBaseTransport):
                 return httpx.Response(400, json={"error": "invalid_grant", "error_description": "x"})
             if o == "5xx":
                 return httpx.Response(503, text="down", request=request)
+            if o == "junk":
+                # a gateway's answer: JSON that is neither a token nor an OAuth error
+                return httpx.Response(429, json={"message": "rate limit exceeded"})
             tok = {"access_token": "at%d" % k, "token_type": "Bearer", "expires_in": 3600}
             if getattr(self, "no_expiry", False):
                 del tok["expires_in"]
